@@ -271,6 +271,10 @@ func (incr *incremental[Obj]) commitStatus() (numErrors int) {
 			currentStatus := incr.config.GetObjectStatus(current)
 			if (currentStatus.Kind == StatusKindPending && currentStatus.ID == result.id) ||
 				(result.retry && currentStatus.Kind == StatusKindError) {
+				// If this needs to be retried, retry with the current version of the
+				// object so that a later status update does not overwrite the statuses
+				// of the other reconcilers with stale ones.
+				result.original = current
 				current = incr.config.CloneObject(current)
 				current = incr.config.SetObjectStatus(current, status)
 				_, _, err = incr.table.Insert(wtxn, current)
